@@ -17,6 +17,9 @@ def run(ctx):
     ctx.level = 'proof'
     ctx.trusted_base = TRUSTED
     ctx.assumptions += ['state-level: the accumulator state of lambda*data is (lambda*sum, lambda*comp, lambda^2*sum_sq, lambda^2*comp_sq, n) over the reals (checked: append(lambda*x) on the scaled state yields the scaled successor); the state of data+d is (sum + n d, sum_sq + 2 d sum + n d^2, n) for compensations folded into the sums']
+    from vlib import core
+    # reordering: every producer accumulates through the compensated append (the one-shot entry points are folds of append)
+    core.run_kani_set(ctx, ['c01_arith_feeding', 'c04_paired_ci_composition', 'c04_paired_feeders'], bound='<= 3 observations, recorder stubs', harness_timeout=900)
     m = E.MEngine(ctx)
     if not m.ok:
         return
